@@ -1,6 +1,6 @@
 #!/bin/sh
 # usage: tools/try_patch.sh <patch.diff> <ID> [ID...]   -- apply a seeded change to /repo, run quick checks, undo
-patch="$1"; shift
+patch="$(realpath "$1")"; shift
 cd /verif || exit 2
 if ! git -C /repo apply --check "$patch" 2>/dev/null; then echo "PATCH DOES NOT APPLY: $patch"; exit 3; fi
 git -C /repo apply "$patch"
